@@ -214,6 +214,12 @@ pub async fn get_access_control_rules(
     port: u16,
     key_keeper_shared_state: KeyKeeperSharedState,
 ) -> Result<Option<ComputedAuthorizationItem>> {
+    #[cfg(azure_guestproxyagent_verif)]
+    if crate::verif::fault::rules_lookup_fails() {
+        return Err(crate::common::error::Error::Invalid(
+            "verif: injected rules lookup failure".to_string(),
+        ));
+    }
     match (ip.as_str(), port) {
         (constants::WIRE_SERVER_IP, constants::WIRE_SERVER_PORT) => {
             key_keeper_shared_state.get_wireserver_rules().await
